@@ -27,12 +27,15 @@ class History:
         self.ts = 1000
         self.tie_bias = tie_bias
         self.rejected_at_creation = set()
+        # event IDs are globally unique: a per-history tag keeps IDs of different simulated rooms apart
+        # (the resolver may legitimately remember facts per event ID across calls)
+        self.tag = "%06x" % rng.getrandbits(24)
 
     # -- construction -------------------------------------------------------
     def _id(self):
         self.n += 1
         # ids differing only in the last character make id tie-breaks matter
-        return "$%s%d%s:hs1.org" % (self.rng.choice("ab"), self.n // 3, self.rng.choice("xyz") + str(self.n % 3))
+        return "$%s%s%d%s:hs1.org" % (self.rng.choice("ab"), self.tag, self.n // 3, self.rng.choice("xyz") + str(self.n % 3))
 
     def _ts(self):
         r = self.rng.random()
